@@ -14,6 +14,7 @@ import AsynqModel.Drv.Batching
 import AsynqModel.Drv.Generator
 import AsynqModel.Drv.Tools
 import AsynqModel.Drv.Families4
+import AsynqModel.Drv.Families5
 open AsynqModel
 
 /-- dispatch one case to the model of its mode -/
@@ -37,7 +38,8 @@ def handleCase (mode : String) (id : Nat) (hdr body : List Sexp) : String :=
       let depth := d.nat?.getD 0
       let down := (List.range (depth + 1)).flatMap fun q => [Sexp.atom s!"before-{q}", Sexp.atom s!"body-{q}"]
       let up := ((List.range (depth + 1)).reverse).map fun q => Sexp.atom s!"after-{q}"
-      if out == "ok" && clean.nat? == some 1 && evs == down ++ up then s!"R {id} CORR=ok SPEC=ok SPECM=ok | "
+      if out == "ok" && Drv.Families5.schedClean clean && evs == down ++ up then s!"R {id} CORR=ok SPEC=ok SPECM=ok | "
+      else if out == "ok" && evs == down ++ up then s!"R {id} CORR=diff SPEC=fail:reentrant-flush-scheduler-not-clean SPECM=ok | {clean}"
       else s!"R {id} CORR=diff SPEC=fail:reentrant-flush-{out}-events-{if evs == down ++ up then "ok" else "wrong"} SPECM=ok | expected {Sexp.list (down ++ up)}, got {Sexp.list evs}"
     | _, _ => s!"R {id} CORR=diff SPEC=ok SPECM=ok | unparsable reflush case"
   | "overlap" =>
@@ -52,19 +54,9 @@ def handleCase (mode : String) (id : Nat) (hdr body : List Sexp) : String :=
       if out == "ok" && evs == expected then s!"R {id} CORR=ok SPEC=ok SPECM=ok | "
       else s!"R {id} CORR=diff SPEC=fail:overlapping-contexts-{out} SPECM=ok | expected {Sexp.list expected}, got {Sexp.list evs}"
     | _, _ => s!"R {id} CORR=diff SPEC=ok SPECM=ok | unparsable overlap case"
-  | "longloop" =>
-    match hdr, body with
-    | [n], [.list [.atom "result", .atom out, r1, r2]] =>
-      if out == "ok" && r1.nat? == n.nat? && r2.nat? == n.nat? then s!"R {id} CORR=ok SPEC=ok SPECM=ok | "
-      else s!"R {id} CORR=diff SPEC=fail:long-loop-does-not-terminate-normally-{out} SPECM=ok | resumed {r1} and {r2} times for {n} yields"
-    | _, _ => s!"R {id} CORR=diff SPEC=ok SPECM=ok | unparsable longloop case"
+  | "longloop" => Drv.Families5.longloop id hdr body
   | "exotic" => Drv.Families4.exotic id hdr body
-  | "resetbetween" =>
-    match body with
-    | [.list [.atom "result", .atom out, clean]] =>
-      if out == "ok" && clean.nat? == some 1 then s!"R {id} CORR=ok SPEC=ok SPECM=ok | "
-      else s!"R {id} CORR=diff SPEC=fail:active-task-after-scheduler-reset-{out}-clean{clean} SPECM=ok | "
-    | _ => s!"R {id} CORR=diff SPEC=ok SPECM=ok | unparsable resetbetween case"
+  | "resetbetween" => Drv.Families5.resetbetween id hdr body
   | "cancelfam" =>
     -- a batch with blocked tasks is cancelled by a sibling: it is never flushed (events: only batch B's
     -- before/body/after, exactly once, in that order), the waiters get the cancellation error, the scheduler is clean
@@ -72,19 +64,10 @@ def handleCase (mode : String) (id : Nat) (hdr body : List Sexp) : String :=
     | [_, _, .atom h, _], [.list [.atom "result", .atom out, clean, .list evs]] =>
       let expected := if h == "1" then "handled" else "raised-cancel"
       let evOk := evs == [.atom "before-B", .atom "body-B", .atom "after-B"]
-      if out == expected && clean.nat? == some 1 && evOk then s!"R {id} CORR=ok SPEC=ok SPECM=ok | "
-      else s!"R {id} CORR=diff SPEC=fail:cancelled-batch-{out}-clean{clean}-events-{if evOk then "ok" else "wrong"} SPECM=ok | expected {expected}, events before-B body-B after-B only; got {Sexp.list evs}"
+      if out == expected && Drv.Families5.schedClean clean && evOk then s!"R {id} CORR=ok SPEC=ok SPECM=ok | "
+      else s!"R {id} CORR=diff SPEC=fail:cancelled-batch-{out}-clean{if Drv.Families5.schedClean clean then "1" else "0"}-events-{if evOk then "ok" else "wrong"} SPECM=ok | expected {expected}, events before-B body-B after-B only; got {Sexp.list evs}"
     | _, _ => s!"R {id} CORR=diff SPEC=ok SPECM=ok | unparsable cancel case"
-  | "ctxraise" =>
-    -- a context hook (pause / resume) raises while its task is suspended / continued: the task fails with that very
-    -- exception (a handler in the awaiting task gets it), nothing else escapes, the scheduler is clean, the next
-    -- computation works.  Expected outcome as a function of the case: handler ↦ "handled", else "raised-boom".
-    match hdr, body with
-    | [_, _, .atom h, _], [.list [.atom "result", .atom out, clean, nxt]] =>
-      let expected := if h == "1" then "handled" else "raised-boom"
-      if out == expected && clean.nat? == some 1 && nxt.nat? == some 1 then s!"R {id} CORR=ok SPEC=ok SPECM=ok | "
-      else s!"R {id} CORR=diff SPEC=fail:context-hook-error-{out}-clean{clean}-next{nxt} SPECM=ok | expected {expected}, clean scheduler, next computation ok"
-    | _, _ => s!"R {id} CORR=diff SPEC=ok SPECM=ok | unparsable ctxraise case"
+  | "ctxraise" => Drv.Families5.ctxraise id hdr body
   -- round-4 families (direct expectations in AsynqModel/Drv/Families4.lean)
   | "aiostart" => Drv.Families4.aiostart id hdr body
   | "eventhook" => Drv.Families4.eventhook id hdr body
@@ -99,6 +82,7 @@ def handleCase (mode : String) (id : Nat) (hdr body : List Sexp) : String :=
   | "futsusp" => Drv.Futures.handleSuspended id hdr body
   | "core" => Drv.Core.handle id hdr body
   | "ctxhist" => Drv.Contexts.handle id hdr body
+  | "ctxwith" => Drv.Contexts.handleW id hdr body
   | "threads" => Drv.Threads.handle id hdr body
   | "asyncio" => Drv.Asyncio.handle id hdr body
   | "decorators" => Drv.Decorators.handle id hdr body
@@ -115,23 +99,8 @@ def handleCase (mode : String) (id : Nat) (hdr body : List Sexp) : String :=
   | "core20" => Drv.Core.handle20 id hdr body
   | "coreinv" => Drv.Core.handleInv id hdr body
   | "coredump" => Drv.Core.handleDump id hdr body
-  | "optpair" =>
-    -- C20 with public scheduler hooks in play (handlers that force the batch being flushed): the machine has no such
-    -- handlers, so only the statement itself is judged: the run under options equals the run without, event for event
-    let sep := Sexp.list [.atom "sep"]
-    let a := body.takeWhile (· != sep)
-    let b := (body.dropWhile (· != sep)).drop 1
-    if a == b then s!"R {id} CORR=ok SPEC=ok SPECM=ok | "
-    else
-      let i := ((a.zip b).takeWhile fun (x, y) => x == y).length
-      s!"R {id} CORR=diff SPEC=fail:options-change-behaviour-with-flush-hooks SPECM=ok | first difference at event {i}: {a[i]?.map toString} vs {b[i]?.map toString}"
-  | "chain" =>
-    -- a chain of n tasks, far deeper than the interpreter's recursion limit: value n, one flush iff the leaf awaits an item
-    match hdr, body with
-    | [n, .atom kind], [.list [.atom "result", .atom st, v, fl, clean]] =>
-      let good := st == "ok" && v.nat? == n.nat? && fl.nat? == some (if kind == "item" then 1 else 0) && clean.nat? == some 1
-      if good then s!"R {id} CORR=ok SPEC=ok SPECM=ok | " else s!"R {id} CORR=diff SPEC=fail:deep-chain-{st} SPECM=ok | chain of {n} tasks: {st}"
-    | _, _ => s!"R {id} CORR=diff SPEC=ok SPECM=ok | unparsable chain case"
+  | "optpair" => Drv.Families5.optpair id body
+  | "chain" => Drv.Families5.chain id hdr body
   | _ => s!"R {id} CORR=diff SPEC=ok SPECM=ok | unknown mode {mode}"
 
 partial def loop (h : IO.FS.Stream) (cur : Option (String × Nat × List Sexp)) (acc : Array Sexp) : IO Unit := do
@@ -150,8 +119,9 @@ partial def loop (h : IO.FS.Stream) (cur : Option (String × Nat × List Sexp)) 
     | none => loop h none #[]
   | some s => loop h cur (acc.push s)
   | none =>
+    -- an unparsable line is part of the case (a marker the families refuse), not silently dropped
     IO.println s!"E unparsable line: {t}"
-    loop h cur acc
+    loop h cur (acc.push (.list [.atom "unparsable"]))
 
 def main : IO Unit := do
   loop (← IO.getStdin) none #[]
